@@ -15,6 +15,8 @@ META = {
     "not_decided": "that each grace period waits for exactly the registered threads under all interleavings of register/unregister with the scan",
 }
 
+META["explanation"] += " " + 'Also: the sleep/wake handshake instances a leaving thread depends on (announce ≺ re-scan ≺ sleep; offline store ≺ waiting test).'
+
 
 def registry_mutations(f):
     out = []
